@@ -237,7 +237,7 @@ class _FakePool:
     def __exit__(self, *a):
         return False
 
-    def starmap(self, f, args):
+    def starmap(self, f, args, chunksize=None):
         return [f(*a) for a in args]
 
 
